@@ -162,6 +162,9 @@ def run_history(cl, be, cls, hist, zV, zK, K, track=False, pickle_hook=None):
     for n, w, _ in be.vars:
         V[n] = cl.BVS(n, w, explicit_name=True) if w else cl.BoolS(n, explicit_name=True)
     S = {0: CLASSES[cls](cl, be, track)}
+    T = {}     # C18, approximate answers: the never-pickled original of a pickled solver goes on as a twin; it receives the same adds and
+    #            the same approximate queries, and its answers are the specification of the unpickled solver's ("the same answers as the
+    #            original from then on" - approximate answers have no absolute specification beyond containment)
     ref = Ref()
     ref.F[0] = []
     ref.A[0] = []
@@ -180,6 +183,8 @@ def run_history(cl, be, cls, hist, zV, zK, K, track=False, pickle_hook=None):
             if op == "add":
                 added_asts = A(st[2])
                 s.add(added_asts)
+                if sid in T:
+                    T[sid].add(added_asts)
                 ref.F[sid] = ref.F[sid] + ZA(st[2])
                 ref.A[sid] = ref.A.get(sid, []) + added_asts
             elif op == "sat":
@@ -230,6 +235,27 @@ def run_history(cl, be, cls, hist, zV, zK, K, track=False, pickle_hook=None):
                 ze = EXPRS[st[2]][1](zV, zK)
                 F = ref.conj(sid, ZA(st[4]))
                 ex_ = tuple(A(st[4]))
+                if sid in T:
+                    try:
+                        t = T[sid]
+                        if op == "aeval":
+                            rt = list(t.eval(ce, st[3], extra_constraints=ex_, exact=False))
+                        elif op == "asolution":
+                            rt = t.solution(ce, K[st[3]], extra_constraints=ex_, exact=False)
+                        else:
+                            rt = getattr(t, op[1:])(ce, extra_constraints=ex_, signed=st[3], exact=False)
+                    except UnsatError:
+                        rt = "UnsatError"
+                    try:
+                        if op == "aeval":
+                            ru = list(s.eval(ce, st[3], extra_constraints=ex_, exact=False))
+                        elif op == "asolution":
+                            ru = s.solution(ce, K[st[3]], extra_constraints=ex_, exact=False)
+                        else:
+                            ru = getattr(s, op[1:])(ce, extra_constraints=ex_, signed=st[3], exact=False)
+                    except UnsatError:
+                        ru = "UnsatError"
+                    log.append((i, "twin", sid, ru, rt, op, ze))
                 try:
                     if op == "aeval":
                         r = list(s.eval(ce, st[3], extra_constraints=ex_, exact=False))
@@ -252,6 +278,8 @@ def run_history(cl, be, cls, hist, zV, zK, K, track=False, pickle_hook=None):
                 ref.A[st[2]] = list(ref.A.get(sid, []))
             elif op == "pickle":
                 S[sid] = pickle.loads(pickle.dumps(s, -1))
+                if cls == "SolverHybridApprox":
+                    T[sid] = s
             elif op == "pickle2":
                 # two solvers in ONE pickle (they may share children / caches)
                 S[sid], S[st[2]] = pickle.loads(pickle.dumps((s, S[st[2]]), -1))
@@ -379,6 +407,27 @@ def check_log(be, log, s, prop):
             if r:
                 bad = ex(z3.And(F, z3.Not(za))) if kind == "is_true" else ex(z3.And(F, za))
                 fails.append(Fail(kind, f"step {i}: {kind}() answered True but it does not follow from the constraints (solver {sid})", bad, known_key=kind))
+        elif kind == "twin":
+            _, _, sid, ru, rt, op, ze = rec
+            from pysym import engine as E
+
+            def tm(v):
+                return E.term(v) if isinstance(v, int) and not isinstance(v, bool) else None
+
+            if isinstance(ru, str) or isinstance(rt, str) or isinstance(ru, bool) or isinstance(rt, bool):
+                if ru != rt:
+                    fails.append(Fail("pickle-differs", f"step {i}: {op[1:]}(exact=False) on the unpickled solver = {ru!r:.40}, on the original = {rt!r:.40} (solver {sid})", None, known_key="pickle-differs"))
+            else:
+                lu, lt = (ru, rt) if isinstance(ru, list) else ([ru], [rt])
+                if len(lu) != len(lt):
+                    fails.append(Fail("pickle-differs", f"step {i}: {op[1:]}(exact=False): the unpickled solver returned {len(lu)} values, the original {len(lt)} (solver {sid})", None, known_key="pickle-differs"))
+                else:
+                    # as sets of n-bit values
+                    n_ = ze.size() if z3.is_bv(ze) else None
+                    if n_ is not None and lu:
+                        lo = lambda v: z3.Extract(n_ - 1, 0, tm(v))  # noqa: E731
+                        diff = z3.Or(*[z3.And(*[lo(a) != lo(b) for b in lt]) for a in lu], *[z3.And(*[lo(b) != lo(a) for a in lu]) for b in lt])
+                        fails.append(Fail("pickle-differs", f"step {i}: {op[1:]}(exact=False) = {lu!r:.50} on the unpickled solver but {lt!r:.50} on the original (solver {sid})", diff, known_key="pickle-differs"))
         elif kind == "asat":
             _, _, sid, r, F = rec
             if not r:
